@@ -57,6 +57,8 @@ VARIANTS = {
     'quotes': ('ili\tstatus\tdefinition', [('i1', 'active', '"big" thing'), ('i2', 'deprecated', '"unbalanced quote'),
                                              ('i3', 'provisional', "it's a \\ back\\slash, comma, 'q'"), ('i9', 'active', ' padded ')]),
     'empty': ('ili\tstatus\tdefinition', []),
+    # blank lines (in the middle, at the end) list nothing
+    'blank-lines': ('ili\tstatus\tdefinition', [('i1', 'deprecated', 'one'), (), ('i2', 'active', 'two'), (), ()]),
     'gz': ('ili\tstatus\tdefinition', [('i2', 'active', 'zipped')]),
 }
 F2 = ('ili\tstatus\tdefinition', [('i1', 'deprecated', 'second file'), ('i2', 'active', None and ''),
@@ -69,7 +71,7 @@ def tsv(header, rows):
 
 def rows_of(header, rows):
     fields = [f.lower() for f in header.split('\t')]
-    return [dict(zip(fields, ['' if c is None else c for c in r])) for r in rows]
+    return [dict(zip(fields, ['' if c is None else c for c in r])) for r in rows if r]
 
 
 class Sys19(e1.System):
@@ -196,9 +198,6 @@ def run(tier, seed, jobs=None):
     t0 = time.time()
     depth = 5 if tier == 'quick' else 7
     names = list(VARIANTS)
-    if tier == 'quick':
-        names = ['full', 'short-rows', 'quotes', names[2 + seed % (len(names) - 2)]]
-        names = list(dict.fromkeys(names))
     runs, allV, vcount = [], [], {}
     for name in names:
         sysm = Sys19(name)
